@@ -30,26 +30,48 @@ let parse_model st =
     match read st.table c with
     | Oob -> emit "! oob"
     | Fuel -> emit "! timeout"
-    | Ok (c', None) -> emit ("end | " ^ cursor_str c')
+    | Ok (c', None) ->
+      emit ("end | " ^ cursor_str c');
+      (* read() after it returned false: twice more *)
+      let again c = match read st.table c with
+        | Ok (c2, r) -> emit (Printf.sprintf "again %d | %s" (if r = None then 0 else 1) (cursor_str c2)); c2
+        | Oob -> emit "! oob"; c
+        | Fuel -> emit "! timeout"; c in
+      ignore (again (again c'))
     | Ok (c', Some it) -> emit (item_str it ^ " | " ^ cursor_str c'); go c' (n + 1)
   in go (init_cursor st.strs) 0
 
 let parse_spec st =
   List.iter (fun it -> emit (item_str it)) (getopt_ref st.table st.strs);
-  emit "end"
+  emit "end"; emit "again 0"; emit "again 0"
 
 let words_str ws = String.concat " " (("words " ^ string_of_int (List.length ws)) :: List.map hex_of_bytes ws)
 
-let exec_str (x : exec_call) code mode size =
+(* what the operating system part of a launch shows (computed here, not in Coq):
+   norm / fd0: the child echoes its argv and environment, copies stdin as scripted, exits with the code;
+   again: the same, and a second open()/start() (all four overloads) on the running Process fails with EINVAL (22);
+   noexec: the executable does not exist - nothing on stdout, "<executable>: No such file or directory\n"
+           on stderr, exit code EXIT_FAILURE *)
+let exec_str (x : exec_call) code mode size profile =
   let out = if mode land 1 <> 0 then size else 0 and err = if mode land 2 <> 0 then size else 0 in
-  Printf.sprintf "L ok argv=%s env=%s join=1 exit=%d running=0 out=%d:ok err=%d:ok io=ok"
-    (hexlist x.x_args) (match x.x_env with None -> "inherit" | Some l -> hexlist l) code out err
+  if profile = "noexec" then
+    Printf.sprintf "L ok argv=! env=! join=1 exit=1 running=0 out=0:ok err=%d:ok io=ok"
+      (List.length x.x_program + 2 + String.length "No such file or directory" + 1)
+  else
+    Printf.sprintf "L ok argv=%s env=%s join=1 exit=%d running=0 out=%d:ok err=%d:ok io=ok%s"
+      (hexlist x.x_args) (match x.x_env with None -> "inherit" | Some l -> hexlist l) code out err
+      (if profile = "again" then " again=0:22,0:22,0:22,0:22" else "")
+
+(* Map<String,String> hands the environment over in key order (C01); keys are compared as byte strings *)
+let sort_env env = List.stable_sort (fun (k1, _) (k2, _) -> compare (List.map int_of_z k1) (List.map int_of_z k2)) env
 
 let launch is_model st toks =
   match toks with
-  | [_; _api; form; _streams; code; mode; size; _seed; first] ->
+  | _ :: _api :: form :: _streams :: code :: mode :: size :: _seed :: first :: prof ->
+    let profile = (match prof with [p] -> p | _ -> "norm") in
     let code = int_of_string code and mode = int_of_string mode and size = int_of_string size in
     let first = bytes_of_hex first in
+    let st = { st with env = sort_env st.env } in
     if is_model then begin
       let r = match form with
         | "cmd" -> launch_cmdline first st.env
@@ -57,7 +79,7 @@ let launch is_model st toks =
         | "argv0" -> launch_argv first (nat_of_int (List.length st.strs + 1)) (List.map (fun s -> Some s) st.strs @ [None]) st.env
         | _ -> launch_argv first (nat_of_int (List.length st.strs)) (List.map (fun s -> Some s) st.strs) st.env in
       match r with
-      | Ok x -> emit (exec_str x code mode size)
+      | Ok x -> emit (exec_str x code mode size profile)
       | Oob -> emit "! oob"
       | Fuel -> emit "! timeout"
     end else begin
@@ -66,7 +88,7 @@ let launch is_model st toks =
         | "list" -> launch_ref_list first st.strs st.env
         | "argv0" -> launch_ref_argv0 first st.strs st.env
         | _ -> launch_ref_argv first st.strs st.env in
-      emit (exec_str x code mode size)
+      emit (exec_str x code mode size profile)
     end
   | _ -> failwith "bad launch op"
 
@@ -75,6 +97,9 @@ let on_op is_model st _ toks =
    | ["s"; h] -> st.strs <- st.strs @ [bytes_of_hex h]
    | ["env"; k; v] -> st.env <- st.env @ [(bytes_of_hex k, bytes_of_hex v)]
    | ["parse"] -> if st.table = [] then emit "?no-table" else if is_model then parse_model st else parse_spec st
+   | ["parse0"] ->     (* Arguments(0, ...): no strings at all, not even argv[0] *)
+     let st0 = { st with strs = [] } in
+     if st.table = [] then emit "?no-table" else if is_model then parse_model st0 else parse_spec st0
    | ["getopt"] -> ()
    | ["split"; h] ->
      if is_model then (match split_model (bytes_of_hex h) with
